@@ -532,3 +532,57 @@ pub fn canon_u32(eg: &EGraph, i: u32) -> u32 {
         i
     }
 }
+
+/// parse the printed form of an extracted term, e.g. `(F0 (K1))`, `(N 3)`, back into a ground pattern
+pub fn parse_term(p: &Program, text: &str) -> Option<Pat> {
+    let toks: Vec<String> = text.replace('(', " ( ").replace(')', " ) ").split_whitespace().map(|s| s.to_string()).collect();
+    fn go(p: &Program, toks: &[String], i: &mut usize) -> Option<Pat> {
+        let t = toks.get(*i)?;
+        if t == "(" {
+            *i += 1;
+            let name = toks.get(*i)?.clone();
+            *i += 1;
+            let f = p.decls.iter().position(|d| d.name == name)?;
+            let mut args = Vec::new();
+            while toks.get(*i)? != ")" {
+                args.push(go(p, toks, i)?);
+            }
+            *i += 1;
+            Some(Pat::App(f, args))
+        } else {
+            *i += 1;
+            if let Ok(z) = t.parse::<i64>() {
+                Some(Pat::Int(z))
+            } else {
+                // nullary constructor printed without parentheses
+                let f = p.decls.iter().position(|d| d.name == *t)?;
+                Some(Pat::App(f, vec![]))
+            }
+        }
+    }
+    let mut i = 0;
+    let r = go(p, &toks, &mut i)?;
+    if i == toks.len() { Some(r) } else { None }
+}
+
+impl Dump {
+    /// evaluate a ground pattern through NON-subsumed rows only; Err names the first application
+    /// whose row is missing or subsumed
+    pub fn eval_visible(&self, p: &Program, t: &Pat) -> Result<V, String> {
+        match t {
+            Pat::Int(z) => Ok(V::Int(*z)),
+            Pat::App(f, args) => {
+                let mut vs = Vec::new();
+                for a in args {
+                    vs.push(self.eval_visible(p, a)?);
+                }
+                match self.tables[*f].iter().find(|r| r.args == vs) {
+                    Some(r) if !r.sub => Ok(r.ret.clone()),
+                    Some(_) => Err(format!("{} is a SUBSUMED row", p.pat_text(t))),
+                    None => Err(format!("{} is not a row of the database", p.pat_text(t))),
+                }
+            }
+            _ => Err("not ground".into()),
+        }
+    }
+}
